@@ -39,6 +39,9 @@ static void conv_args(KdCtx *k, ConvArgs *a, int kind, int compound, int bd) {
      * i.e. for both directions (AV1 spec 5.11.x interp_filter; intra block copy uses it too) */
     a->fx = kr_range(k, 0, 2), a->fy = kr_range(k, 0, 2);
     if (kr_range(k, 0, 5) == 0) a->fx = a->fy = 3;
+    /* beyond the random draws: every third sweep over the block sizes uses BILINEAR, so that each (size, 2-tap path)
+     * pair is met in every run and not only when the draw happens to hit it */
+    if (k->icase >= 9 && ((k->icase - 9) / 22) % 3 == 2) a->fx = a->fy = 3;
     /* the encoder itself never combines BILINEAR with compound prediction (only the decoder can meet
      * it, for streams with interpolation_filter = BILINEAR): separate key */
     if (compound && a->fx == 3) ktag(k, "compound-bilinear");
@@ -78,6 +81,14 @@ static void compound_setup(KdCtx *k, ConvArgs *a) {
     static const int tbl[2][4][2] = {{{9, 7}, {11, 5}, {12, 4}, {13, 3}}, {{7, 9}, {5, 11}, {4, 12}, {3, 13}}};
     a->cp.do_average       = kr_bool(k);
     a->cp.use_jnt_comp_avg = kr_bool(k);
+    if (k->icase >= 9 && k->icase < 9 + 264) {
+        /* one (average, distance-weighted) path per sweep over the block sizes; the BILINEAR sweeps (every third one,
+         * see conv_args) start with the averaging + distance-weighted path, the one with the most code of its own */
+        int sweep = (k->icase - 9) / 22;
+        int c     = (sweep % 3 == 2) ? 3 - ((sweep / 3) & 3) : (sweep & 3);
+        a->cp.do_average       = c & 1;
+        a->cp.use_jnt_comp_avg = (c >> 1) & 1;
+    }
     int i = kr_range(k, 0, 1), j = kr_range(k, 0, 3);
     a->cp.fwd_offset = tbl[i][j][0];
     a->cp.bck_offset = tbl[i][j][1];
